@@ -174,7 +174,7 @@ theorem LQ.stepX {s s' : State} {ti : Nat} (hQ : LQ s) (h : stepX s ti = some s'
         have ht3 : (s2.log (.dispatch u w (s2.handlersOf w))).thread? ti = some t := by rw [log_thread?]; exact ht2
         rw [updThread_of_some _ ht3] at h
         refine A.cit _ _ _ _ h (setThread_thread?_self _ ht3) ?_
-        exact (hL2.log _ trivial (Or.inl rfl)).setThreadMine _
+        exact (hL2.log (.dispatch u w (s2.handlersOf w)) trivial (Or.inl rfl)).setThreadMine _
       · -- eEmit
         rename_i hpc
         have hp : holdsPc t.pc = false := by rw [hpc]; rfl
@@ -182,7 +182,7 @@ theorem LQ.stepX {s s' : State} {ti : Nat} (hQ : LQ s) (h : stepX s ti = some s'
         · split at h
           · split at h
             · cases h
-              rename_i e _ o _ v rest _
+              rename_i _ e _ _ o _ _ v rest _
               have ht1 : (s.updEm e (fun o => { o with script := rest })).thread? ti = some t := by rw [updEm_thread?]; exact ht
               obtain ⟨t', ht', e1, e2, e3, e4⟩ := putItem_thread? (fun u => QItem.ev u o.wid v) (fun u => Obs.enq o.wid v u) (Obs.drop o.wid v) ht1
               rw [depth_of_not_holds hp] at hO
